@@ -521,6 +521,25 @@ pub(crate) fn c06_rabin_pair_frag() { pair_check::<0, 76, 5, 71, 76, 1>(64, 64, 
 #[kani::stub(std::io::Read::read_to_end, crate::chunker::rabin::verif_harness::ReadToEndModel::read_to_end)]
 pub(crate) fn c06_rabin_pair_small() { pair_check_w::<0, 24, 3, 21, 24, 0>(1, 16, 4, 20); }
 
+//@ harness: c06_rabin_pair_small_tail
+//@ prop: C06
+//@ tier: thorough
+//@ timeout: 2400
+//@ mem: 20
+//@ unwindset: calculate_out_table#0=4; calculate_out_table#1=258; calculate_mod_table#0=258; modulo#0=64
+//@ kernel: as c06_rabin_pair_small
+//@ bound: as c06_rabin_pair_small with only 3 remaining bytes (below the minimum of 4: the final short chunk), A = 0 + 3, B = 2 + 1
+//@ oracle: as c06_rabin_pair_small
+//@ stub: std::io::Read::read_to_end -> contract model
+//@ assume: ChunkIter invariant between calls: pos <= buf.len()
+//@ outside: as c06_rabin_pair_small
+
+#[kani::proof]
+#[kani::unwind(30)]
+#[kani::stub(std::backtrace::Backtrace::capture, crate::error::verif_harness::stub_backtrace_capture)]
+#[kani::stub(std::io::Read::read_to_end, crate::chunker::rabin::verif_harness::ReadToEndModel::read_to_end)]
+pub(crate) fn c06_rabin_pair_small_tail() { pair_check_w::<0, 3, 2, 1, 3, 0>(1, 16, 4, 20); }
+
 // ---- first chunk, production window, std's real read_to_end, unbounded symbolic read fragmentation ----
 pub(crate) struct ProbeReader<const N: usize> { pub data: [u8; N], pub len: usize, pub pos: usize }
 impl<const N: usize> Read for ProbeReader<N> {
@@ -576,3 +595,19 @@ pub(crate) fn c06_rabin_first_chunk_frag() {
     kani::cover!(len == 0, "empty stream");
     std::mem::forget(it);
 }
+
+//@ harness: c06_rabin_pair_small_frag
+//@ prop: C06
+//@ tier: experimental
+//@ timeout: 2400
+//@ mem: 30
+//@ unwindset: calculate_out_table#0=4; calculate_out_table#1=258; calculate_mod_table#0=258; modulo#0=64
+//@ kernel: as c06_rabin_pair_small
+//@ bound: as c06_rabin_pair_small, iterator B additionally sees one short read of symbolic length at a symbolic point (measured: CBMC exceeds 20 GB after 525 s of symbolic execution - symbolic read lengths, 11.2)
+//@ oracle: as c06_rabin_pair_small
+//@ stub: std::io::Read::read_to_end -> contract model
+#[kani::proof]
+#[kani::unwind(30)]
+#[kani::stub(std::backtrace::Backtrace::capture, crate::error::verif_harness::stub_backtrace_capture)]
+#[kani::stub(std::io::Read::read_to_end, crate::chunker::rabin::verif_harness::ReadToEndModel::read_to_end)]
+pub(crate) fn c06_rabin_pair_small_frag() { pair_check_w::<0, 24, 3, 21, 24, 1>(1, 16, 4, 20); }
